@@ -59,7 +59,7 @@ class TreeEval:
         self.fn_path, self.cor_path = ev
 
     def _opaque(self, p):
-        return p == self.fn_path or (self.f.bodies.get(p, {}).get("impl") or {}).get("self_s", "").startswith("expr::eval::context::EvalContext")
+        return p == self.fn_path or evalsum.context_lookup(self.f, p)
 
     def _concrete(self, it, st, v):
         n = 0
@@ -76,7 +76,7 @@ class TreeEval:
     def _force(self, it, st, path, args):
         if path not in (self.fn_path, self.cor_path) or not args:
             return False
-        return self._concrete(it, st, args[0])
+        return any(self._concrete(it, st, a) for a in args)
 
     def run(self, base_state, tree, frame_base=0, max_paths=30000):
         """abstract evaluation of `tree` (a live term of `base_state`) -> list of (conds, trace, ret, class)"""
@@ -95,7 +95,7 @@ class TreeEval:
         it.force_inline = self._force
         selfref = ("ref", st.alloc(tree))
         ctx = ("ref", st.alloc(("sym", "ctx")))
-        cor = ("coroutine", self.cor_path, (selfref, ctx))
+        cor = ("coroutine", self.cor_path, evalsum.evaluator_captures(self.f, self.fn_path, selfref, ctx))
         fid = it.new_frame(st)
         st.frames[fid][1] = cor
         st.frames[fid][2] = ("sym", "task_context")
